@@ -1037,6 +1037,7 @@ def extract(ctx):
     tolerant = is_tolerant_tree()
     budgeted = is_budgeted_tree()
     lenient = is_lenient_sf_tree()
+    shared = is_shared_seen_tree()
     return {"PyGqlModel/Generated/DepthVariant.lean": (
         "/- GENERATED by harness/corr/C19.py: extract() from src/py_gql/utilities/{max_depth,collect_fields}.py — do not edit. -/\n"
         "namespace PyGql.Generated.DepthVariant\n\n"
@@ -1046,7 +1047,26 @@ def extract(ctx):
         "def budgeted : Bool := %s\n\n"
         "/-- `_selected_paths` calls `collect_fields_untyped(..., skip_selection=<keep when CoercionError>)` (/repo 4c46ee1) -/\n"
         "def lenientSelectedFields : Bool := %s\n\n"
-        "end PyGql.Generated.DepthVariant\n" % tuple("true" if x else "false" for x in (tolerant, budgeted, lenient)))}
+        "/-- `collect_fields_untyped` keeps ONE visited-fragments set per collection (`if _seen_fragments is None`, C19-H2.patch) -/\n"
+        "def sharedSeen : Bool := %s\n\n"
+        "end PyGql.Generated.DepthVariant\n" % tuple("true" if x else "false" for x in (tolerant, budgeted, lenient, shared)))}
+
+
+def is_shared_seen_tree():
+    """how `collect_fields_untyped` initialises `_seen_fragments`: `if _seen_fragments is None` (shared) or `... or set()` (an empty
+       set is replaced by a private one); anything else is outside the model"""
+    import ast as pyast
+    from common import REPO
+    tree = pyast.parse((REPO / "src/py_gql/utilities/collect_fields.py").read_text())
+    fn = [n for n in pyast.walk(tree) if isinstance(n, pyast.FunctionDef) and n.name == "collect_fields_untyped"]
+    if not fn:
+        raise ValueError("collect_fields.py no longer defines collect_fields_untyped")
+    src = pyast.unparse(fn[0])
+    if "_seen_fragments = _seen_fragments or set()" in src:
+        return False
+    if "if _seen_fragments is None:" in src and "_seen_fragments = set()" in src:
+        return True
+    raise ValueError("collect_fields_untyped initialises _seen_fragments in an unknown way")
 
 
 def is_lenient_sf_tree():
@@ -1221,6 +1241,9 @@ def run(ctx):
     ctx.stat("fragments-spread-twice")
     check(case, ("exp", n_exp))
     flush()
+
+    # --- hunt3: cost oracle on the exponential families + flat forwarding chains -------------------------
+    cost_probe(ctx, real)
 
     # --- hunt2 C19/1: acyclic fragment chains 500 .. 3000 levels deep ---------------------------------
     deep_chain_probe(ctx, real, [500, 1200, 3000] if ctx.tier == "quick" else [500, 800, 1000, 1200, 3000])
@@ -1498,6 +1521,99 @@ def deep_chain_probe(ctx, real, depths):
                          kind="correspondence")
 
 
+class StepCounter:
+    """counts the calls of collect_fields_untyped (its own recursive calls included) while the rule runs: a deterministic cost
+       measure (wall time is not compared: the machine may be busy)"""
+
+    def __enter__(self):
+        import importlib
+        self.cf = importlib.import_module("py_gql.utilities.collect_fields")
+        self.md = importlib.import_module("py_gql.utilities.max_depth")
+        self.orig = self.cf.collect_fields_untyped
+        self.n = 0
+
+        def counted(*a, **k):
+            self.n += 1
+            return self.orig(*a, **k)
+        self.cf.collect_fields_untyped = counted
+        self.md.collect_fields_untyped = counted
+        return self
+
+    def __exit__(self, *a):
+        self.cf.collect_fields_untyped = self.orig
+        self.md.collect_fields_untyped = self.orig
+
+
+def family_inline(n):
+    """hunt3 C19/2: every fragment spreads the next one twice, each spread wrapped in an inline fragment (valid, depth 0)"""
+    return "\n".join(["{ ...F0 }"] + ["fragment F%d on Query { ... { ...F%d } ... { ...F%d } }" % (i, i + 1, i + 1) for i in range(n)]
+                     + ["fragment F%d on Query { c }" % n]), 0
+
+
+def family_bare(n):
+    """hunt C19/2: every fragment spreads the next one twice below two fields (valid, depth n - 1)"""
+    return "\n".join(["{ ...F1 }"] + ["fragment F%d on Query { a { ...F%d } b { ...F%d } }" % (i, i + 1, i + 1) for i in range(1, n)]
+                     + ["fragment F%d on Query { c }" % n]), n - 1
+
+
+def family_merge(L):
+    """hunt3 C19/3: response-key merging across levels — 2^l distinct merged selection sets at level l (valid, depth L)"""
+    parts = ["{ ...F_0_1 }"]
+    for l in range(L):
+        for j in range(1, l + 2):
+            parts.append("fragment F_%d_%d on Query { p: a { ...F_%d_%d } q: a { ...F_%d_%d ...F_%d_1 } }"
+                         % (l, j, l + 1, j + 1, l + 1, j + 1, l + 1))
+    for j in range(1, L + 2):
+        parts.append("fragment F_%d_%d on Query { c }" % (L, j))
+    return "\n".join(parts), L
+
+
+def family_forward(n):
+    """hunt3 C19/1: a chain of forwarding fragments (valid, acyclic, FLAT: depth 0)"""
+    return "\n".join(["{ ...F0 }"] + ["fragment F%d on Query { ...F%d }" % (i, i + 1) for i in range(n)]
+                     + ["fragment F%d on Query { c }" % n]), 0
+
+
+def cost_probe(ctx, real):
+    """COST oracle (every run): on valid documents of these families the rule answers exactly (flagged at depth-1, not at depth) within a
+       number of collections polynomial in the size of the document: steps <= 40 * (selection nodes + fragments)."""
+    fams = [("inline-wrapped-spreads", family_inline, [6, 10, 14]), ("fragments-spread-twice", family_bare, [6, 10, 14]),
+            ("key-merging-across-levels", family_merge, [4, 8, 12])]
+    for name, mk, sizes in fams:
+        for n in sizes:
+            text, depth = mk(n)
+            document = real.parse(text)
+            nodes = text.count("...") + text.count(" a ") + text.count(" b ") + text.count(" c ") + text.count("fragment ")
+            ctx.count()
+            ctx.stat("cost-probe:" + name)
+            with StepCounter() as sc:
+                got = {l: real.flags(document, {}, l, None) for l in ({depth - 1, depth} if depth else {0})}
+            want = {l: ([0] if l < depth else []) for l in got}
+            if got != want:
+                ctx.fail("%s:cost-family:%s" % ("raises" if any(isinstance(v, str) for v in got.values()) else "wrong-verdict", name),
+                         "wrong verdict on a valid document of the %s family" % name, {"cost_family": name, "n": n, "got": str(got), "want": str(want)})
+                break
+            bound = 40 * nodes * len(got)
+            if sc.n > bound:
+                ctx.fail("steps-exponential:%s" % name,
+                         "the depth rule needs a number of collections exponential in the size of a valid document (%s family): "
+                         "%d collect_fields_untyped calls for %d selection nodes (n=%d); bound %d" % (name, sc.n, nodes, n, bound),
+                         {"cost_family": name, "n": n, "steps": sc.n, "nodes": nodes, "bound": bound, "depth": depth})
+                break
+    # flat forwarding chains: exact (depth 0) below the interpreter's limit; beyond it the rule cannot measure
+    for n in (400, 1200):
+        text, depth = family_forward(n)
+        document = real.parse(text)
+        ctx.count()
+        ctx.stat("cost-probe:forwarding-chain-%d" % n)
+        got = real.flags(document, {}, 0, None)
+        if got != []:
+            ctx.fail("%s:flat-forwarding-chain" % ("raises:" + got[4:] if isinstance(got, str) else "over-flagged"),
+                     "a FLAT operation (depth 0) that reaches its field through %d forwarding fragments is reported as exceeding the limit" % n,
+                     {"forwarding_chain": n, "flagged": got, "expected": []})
+            break
+
+
 def pipeline_outcome(real, text, vs, name, limit, rule_filter):
     """graphql_blocking(schema, text, variables, validators=[default_validator, MaxDepthValidationRule(limit, operation_name=f)]):
        'executed' | 'rejected-depth' | 'rejected-other' | 'exc:<Class>'; the depth errors are the errors the rule ADDS to those of the
@@ -1660,6 +1776,17 @@ def doc_with_types(doc):
 def replay(ctx, data):
     inp = data.get("input", {})
     real = Real()
+    if "forwarding_chain" in inp:
+        text, _ = family_forward(inp["forwarding_chain"])
+        return real.flags(real.parse(text), {}, 0, None) == []
+    if "cost_family" in inp:
+        mk = {"inline-wrapped-spreads": family_inline, "fragments-spread-twice": family_bare, "key-merging-across-levels": family_merge}[inp["cost_family"]]
+        text, depth = mk(inp["n"])
+        document = real.parse(text)
+        nodes = text.count("...") + text.count(" a ") + text.count(" b ") + text.count(" c ") + text.count("fragment ")
+        with StepCounter() as sc:
+            ok = real.flags(document, {}, depth, None) == [] and (depth == 0 or real.flags(document, {}, depth - 1, None) == [0])
+        return ok and sc.n <= 40 * nodes * (2 if depth else 1)
     if "deep_chain_fragments" in inp:
         text, doc, depth = deep_chain(inp["deep_chain_fragments"])
         document = real.parse(text)
